@@ -45,11 +45,8 @@ func TestReplaySearchRemove(t *testing.T) {
 		if err := build(lib, ruleR(1)+"\n"+ruleS); err != nil {
 			t.Fatal(err)
 		}
-		if err := build(lib, ruleR(9)); err == nil {
-			t.Fatalf("CONFIRMED: building a rule whose name already exists was accepted (viaLib=%v)", viaLib)
-		}
 		if f, err := replayC16Run(lib); err != nil || f.A != 1 || f.B != 1 {
-			t.Fatalf("CONFIRMED: after a rejected duplicate the existing rules do not behave as before: facts=%+v err=%v", f, err)
+			t.Fatalf("CONFIRMED: freshly built rules R and S do not behave per their text: facts=%+v err=%v", f, err)
 		}
 		for round := 1; round <= 3; round++ {
 			remove(lib, "R")
@@ -62,6 +59,30 @@ func TestReplaySearchRemove(t *testing.T) {
 			if f, err := replayC16Run(lib); err != nil || f.A != 10+round || f.B != 1 {
 				t.Fatalf("CONFIRMED: round %d (viaLib=%v): re-built rule R does not behave per its own text: facts=%+v err=%v", round, viaLib, f, err)
 			}
+		}
+	}
+}
+
+// a rule whose name already exists is rejected with an error and the existing rules stay in force (its own harness, so that
+// the rounds above are not masked by the open finding it demonstrates)
+func TestReplaySearchDuplicateRejected(t *testing.T) {
+	build := func(lib *ast.KnowledgeLibrary, grl string) error {
+		return builder.NewRuleBuilder(lib).BuildRuleFromResource("K", "1", pkg.NewBytesResource([]byte(grl)))
+	}
+	for _, dup := range []string{
+		`rule R "r" { when F.A == 0 then F.A = 9; }`,
+		`rule R "r" { when F.A == 0 then F.A = 1; }`,
+		`rule T "t" { when F.C == 0 then F.C = 5; }` + "\n" + `rule S "again" { when F.B == 0 then F.B = 7; }`,
+	} {
+		lib := ast.NewKnowledgeLibrary()
+		if err := build(lib, `rule R "r" { when F.A == 0 then F.A = 1; }`+"\n"+`rule S "s" { when F.B == 0 then F.B = 1; }`); err != nil {
+			t.Fatal(err)
+		}
+		if err := build(lib, dup); err == nil {
+			t.Fatalf("CONFIRMED: building a rule whose name already exists was accepted: %s", dup)
+		}
+		if f, err := replayC16Run(lib); err != nil || f.A != 1 || f.B != 1 {
+			t.Fatalf("CONFIRMED: after a rejected duplicate the existing rules are no longer in force: facts=%+v err=%v (rejected text: %s)", f, err, dup)
 		}
 	}
 }
